@@ -525,6 +525,33 @@ def mon_c17(case_line, acts):
     return out
 
 
+def mon_c17_admission(case_line, acts):
+    """the room the admission gate sees is the capacity minus the bytes of the packets that ARE retained, nothing else:
+    can_publish(QoS 0) <=> live and at least 5 bytes are free once the retained packets are packed; for QoS 1 / 2
+    additionally an open send window and a free slot.  In particular a session with nothing retained admits what a new
+    session with the same buffers admits, however many sessions, reconnects and discarded packets lie behind it."""
+    out = []
+    for i, a in enumerate(acts):
+        st = a.state or {}
+        cp = st.get('cp', '---')
+        if len(cp) != 3 or '-' in cp or 'cap' not in st or 'ret' not in st or 'live' not in st or 'quota' not in st:
+            continue
+        ret = [x.split(':') for x in list_field(st.get('ret', '[]'))]
+        if any(len(f) < 3 for f in ret):
+            continue
+        free = int(st['cap']) - sum(int(f[2]) for f in ret)
+        live = st['live'] == '1'
+        want0 = live and free >= 5
+        want12 = want0 and int(st['quota']) > 0 and len(ret) < 8
+        want = '%d%d%d' % (want0, want12, want12)
+        if cp != want:
+            out.append(V('after action #%d can_publish reports %s for QoS 0/1/2; with %d of %d bytes taken by %d retained '
+                         'packets, send window %s, live=%s it should be %s: the arena does not offer what it has'
+                         % (i, cp, int(st['cap']) - free, int(st['cap']), len(ret), st['quota'], st['live'], want)))
+            break
+    return out
+
+
 # ---------------------------------------------------------------- C02 / C03: replay
 def _nodup(raw):
     return bytes([raw[0] & ~8]) + raw[1:]
@@ -1409,6 +1436,11 @@ def mon_c12(case_line, acts):
                                  'and the CONNECT needs %d' % (res[4:], free, need)))
                 continue        # an arena that cannot hold the CONNECT even when empty: no history involved
         if not a.events:
+            if res.startswith('err ') and not res.startswith('err BufferTooSmall') and not res.startswith('err InsufficientMemory'):
+                # refused before any I/O, and not for lack of room in the arena: nothing of an earlier connection (a
+                # broker's packet size limit, a dead handle, timers) may stand in the way of a new CONNECT
+                out.append(V('connect() at action #%d fails with %s before writing a single byte: state carried over from '
+                             'the previous connection (mps=%s) blocks the new one' % (i, res[4:], prev.get('mps', '?'))))
             continue
         # broker conformance
         pk, tail, problems = mqttspec.parse_client_stream(bytes(wire), strict_flags=False)
@@ -1538,6 +1570,70 @@ def mon_c13(case_line, acts):
                 and (a.state or {}).get('live') == '1':
             out.append(V('disconnect() dropped after the transport accepted %s; the handle is still live'
                          % ''.join(e[3] for e in a.events if e[0] == 'w' and e[2]), 'K13d'))
+    return out
+
+
+def mon_c13_wire(case_line, acts):
+    """single-run part of C13, "corrupts nothing": on a transport on which the future of a cancel-safe operation was
+    dropped, what the client writes afterwards still continues the byte stream: the transport's bytes are whole,
+    well-formed packets (the last one possibly unfinished).  Excused: QoS 0 publish / connect dropped, Ok(0), and the
+    recorded defects of disconnect() (trace.garbles)."""
+    out = []
+    for c in connections(acts):
+        idx = list(c['actions'])
+        cancelled = [i for i in idx if acts[i].result == 'cancelled' and acts[i].code in (1, 2, 3, 5, 6, 7)]
+        if not cancelled:
+            continue
+        excused = False
+        for i in idx:
+            a = acts[i]
+            if garbles(a, acts[i - 1].state if i > 0 else None):
+                excused = True
+            if a.code == 1 and a.result == 'cancelled' and qos0_partial(a):
+                excused = True
+            if any(e[0] == 'w' and e[2] is None and e[3] == 'zero' for e in a.events):
+                excused = True
+            if a.code in (0, 4) and a.result == 'cancelled':
+                excused = True
+        if excused:
+            continue
+        pk, tail, problems = mqttspec.parse_client_stream(c['wire'], strict_flags=False)
+        for p in pk:
+            if p['type'] != 'MALFORMED':
+                continue
+            err = p['error']
+            if 'packet identifier 0' in err and (p['first'] >> 4) in (4, 5, 7):
+                continue
+            if _illegal_input(err) or 'empty topic' in err or 'U+0000' in err or 'without topic filter' in err or 'appears twice' in err:
+                continue
+            out.append(V('after the future of action #%d was dropped, the bytes written on that transport no longer form '
+                         'packets: %s (%s)' % (cancelled[0], err, p['raw'].hex()[:80])))
+            break
+    return out
+
+
+def mon_c16_flush(case_line, acts):
+    """a packet whose bytes the transport has taken but whose flush is still owed (state F, left behind by a future dropped
+    inside flush()) is the entry in progress: the next drive() / poll() that runs to its end without a fault flushes it first"""
+    out = []
+    for i, a in enumerate(acts):
+        if i == 0 or not a.state or not acts[i - 1].state:
+            continue
+        res = a.result or ''
+        if not ((a.code == 5 and res.startswith('ok')) or (a.code == 6 and res == 'ok none')):
+            continue
+        if any((e[0] == 'w' and not e[2]) or (e[0] == 'f' and e[1] != 'ok') or (e[0] == 'r' and e[2] is None) for e in a.events):
+            continue
+        if (acts[i - 1].state.get('live') != '1') or a.state.get('live') != '1':
+            continue
+        for key in ('ctl', 'rel', 'ret'):
+            before = [x for x in list_field(acts[i - 1].state.get(key, '[]')) if 'F' in x.split(':')]
+            after = list_field(a.state.get(key, '[]'))
+            for x in before:
+                if x in after:
+                    out.append(V('%s at action #%d returned %r and left the %s entry %s written but unflushed: an entry in '
+                                 'progress is never taken up again' % ('drive()' if a.code == 5 else 'poll()', i, res, key, x[:40])))
+                    return out
     return out
 
 
